@@ -28,7 +28,7 @@ theorem plasma_backed (P : Params) (ops : List (PlasmaOp × Ctx)) (s : Plasma) (
 theorem cancelFuse_release_rule (id : Hash) (s s' : Plasma) (c : Ctx) (ps : List Payout)
     (h : cancelFuse id s c = some (s', ps)) :
     ∃ f, lookup (c.sender, id) s.fusions = some f ∧ c.amount = 0 ∧ f.expH ≤ c.height ∧
-      ps = [⟨c.sender, qsrTok, f.amount, false⟩] ∧ lookup (c.sender, id) s'.fusions = none := by
+      ps = [⟨c.sender, qsrTok, f.amount, .none⟩] ∧ lookup (c.sender, id) s'.fusions = none := by
   unfold cancelFuse at h
   split at h
   · cases h
@@ -115,7 +115,7 @@ theorem stake_backed (P : Params) (ops : List (StakeOp × Ctx)) (s : Stake) (bal
 theorem cancelStake_release_rule (id : Hash) (s s' : Stake) (c : Ctx) (ps : List Payout)
     (h : cancelStake id s c = some (s', ps)) :
     ∃ e, lookup (c.sender, id) s.entries = some e ∧ c.amount = 0 ∧ e.expiration ≤ c.now ∧
-      ps = [⟨c.sender, znnTok, e.amount, false⟩] ∧
+      ps = [⟨c.sender, znnTok, e.amount, .none⟩] ∧
       lookup (c.sender, id) s'.entries = some { e with revoke := c.now, amount := 0 } := by
   unfold cancelStake at h
   split at h
@@ -159,7 +159,7 @@ theorem stake_records_lock (P : Params) (d : Int) (s s' : Stake) (c : Ctx) (ps :
 theorem cancelStake_never_twice (id : Hash) (s s' s'' : Stake) (c c2 : Ctx) (ps ps2 : List Payout)
     (h : cancelStake id s c = some (s', ps)) (hsame : c2.sender = c.sender)
     (h2 : cancelStake id s' c2 = some (s'', ps2)) :
-    ps2 = [⟨c.sender, znnTok, 0, false⟩] := by
+    ps2 = [⟨c.sender, znnTok, 0, .none⟩] := by
   obtain ⟨e, _, _, _, _, hrec⟩ := cancelStake_release_rule id s s' c ps h
   obtain ⟨e2, he2, _, _, hp2, _⟩ := cancelStake_release_rule id s' s'' c2 ps2 h2
   rw [hsame, hrec] at he2
@@ -211,7 +211,7 @@ theorem createHtlc_records_lock (a : Addr) (ex : Int) (ty km : Nat) (hl : Bytes)
 theorem reclaimHtlc_release_rule (id : Hash) (s s' : Htlc) (c : Ctx) (ps : List Payout)
     (h : reclaimHtlc id s c = some (s', ps)) :
     ∃ e, lookup id s.entries = some e ∧ c.amount = 0 ∧ c.sender = e.timeLocked ∧ e.expiration ≤ c.now ∧
-      ps = [⟨e.timeLocked, e.tok, e.amount, false⟩] ∧ lookup id s'.entries = none := by
+      ps = [⟨e.timeLocked, e.tok, e.amount, .none⟩] ∧ lookup id s'.entries = none := by
   unfold reclaimHtlc at h
   split at h
   · cases h
@@ -240,7 +240,7 @@ theorem unlockHtlc_release_rule (H : HashFn) (id : Hash) (pre : Bytes) (s s' : H
     ∃ e, lookup id s.entries = some e ∧ c.amount = 0 ∧
       (c.sender = e.hashLocked ∨ s.proxyAllowed e.hashLocked = true) ∧ c.now < e.expiration ∧
       pre.length ≤ e.keyMax ∧ H e.hashType pre = e.hashLock ∧
-      ps = [⟨e.hashLocked, e.tok, e.amount, false⟩] ∧ lookup id s'.entries = none := by
+      ps = [⟨e.hashLocked, e.tok, e.amount, .none⟩] ∧ lookup id s'.entries = none := by
   unfold unlockHtlc at h
   split at h
   · cases h
@@ -337,7 +337,7 @@ theorem depositQsr_accumulates (d d' : Deposits) (c : Ctx) (h : depositQsr d c =
 /-- T3 (QSR deposit): WithdrawQsr pays out only if the caller sent no amount and has a non-zero deposit; it pays exactly
     that deposit, in QSR, to the depositor, and the deposit is deleted in the same step. -/
 theorem withdrawQsr_release_rule (d d' : Deposits) (c : Ctx) (ps : List Payout) (h : withdrawQsr d c = some (d', ps)) :
-    c.amount = 0 ∧ 0 < depositOf d c.sender ∧ ps = [⟨c.sender, qsrTok, depositOf d c.sender, false⟩] ∧
+    c.amount = 0 ∧ 0 < depositOf d c.sender ∧ ps = [⟨c.sender, qsrTok, depositOf d c.sender, .none⟩] ∧
       depositOf d' c.sender = 0 := by
   obtain ⟨h1, h2, h3, h4, _⟩ := withdrawQsr_law h
   refine ⟨h1, h2, h3, ?_⟩
@@ -384,7 +384,7 @@ theorem registerPillar_records_lock (P : Params) (name : Hash) (producer reward 
     c.token = znnTok ∧ c.amount = P.pillarStakeAmount ∧ lookup name s.pillars = none ∧
       pillarQsrCost P s ≤ depositOf s.deposits c.sender ∧
       lookup name s'.pillars = some ⟨c.sender, P.pillarStakeAmount, c.now, 0, producer, reward, ZV.Gen.NormalPillarType, pb, pd⟩ ∧
-      ps = [⟨tokenContract, qsrTok, pillarQsrCost P s, true⟩] := by
+      ps = [⟨tokenContract, qsrTok, pillarQsrCost P s, .burn⟩] := by
   obtain ⟨ht, ha, hn, d', hd, hs, hp⟩ := registerPillar_spec h
   refine ⟨ht, ha, hn, (consumeQsr_law hd).1, ?_, hp⟩
   subst hs
@@ -397,7 +397,7 @@ theorem revokePillar_release_rule (P : Params) (name : Hash) (ok : Bool) (s s' :
     (h : revokePillar P name ok s c = some (s', ps)) :
     ∃ p, lookup name s.pillars = some p ∧ c.amount = 0 ∧ p.revokeTime = 0 ∧ c.sender = p.stakeAddr ∧
       revocable P.pillarLock P.pillarRevoke p.regTime c.now = true ∧
-      ps = [⟨p.stakeAddr, znnTok, P.pillarStakeAmount, false⟩] ∧
+      ps = [⟨p.stakeAddr, znnTok, P.pillarStakeAmount, .none⟩] ∧
       lookup name s'.pillars = some { p with revokeTime := c.now, amount := 0 } := by
   obtain ⟨ha, p, hp, hr, ho, hw, hs, hps⟩ := revokePillar_spec h
   refine ⟨p, hp, ha, hr, ho.symm, hw, hps, ?_⟩
@@ -407,7 +407,7 @@ theorem revokePillar_release_rule (P : Params) (name : Hash) (ok : Bool) (s s' :
 /-- under the invariant, the amount Revoke pays is the amount recorded for the pillar -/
 theorem revokePillar_pays_recorded (P : Params) (name : Hash) (ok : Bool) (s s' : Pillar) (c : Ctx) (ps : List Payout)
     (hI : PillarInv P s) (h : revokePillar P name ok s c = some (s', ps)) :
-    ∃ p, lookup name s.pillars = some p ∧ ps = [⟨p.stakeAddr, znnTok, p.amount, false⟩] := by
+    ∃ p, lookup name s.pillars = some p ∧ ps = [⟨p.stakeAddr, znnTok, p.amount, .none⟩] := by
   obtain ⟨_, p, hp, hr, _, _, _, hps⟩ := revokePillar_spec h
   exact ⟨p, hp, by rw [hps, hI (name, p) (mem_of_lookup hp) hr]⟩
 
@@ -438,7 +438,7 @@ theorem revokePillar_at_time_zero_pays_twice :
     let s : Pillar := { pillars := [(1, ⟨16, P.pillarStakeAmount, 0, 0, 16, 16, 2, 0, 0⟩)] }
     let c : Ctx := ⟨0, 1, 16, 0, zeroTok, 9⟩
     ((revokePillar P 1 true s c).bind fun r => (revokePillar P 1 true r.1 c).map (·.2)) =
-      some [⟨16, znnTok, P.pillarStakeAmount, false⟩] := by
+      some [⟨16, znnTok, P.pillarStakeAmount, .none⟩] := by
   decide
 
 /-! ## sentinel -/
@@ -474,7 +474,7 @@ theorem revokeSentinel_release_rule (P : Params) (s s' : Sentinel) (c : Ctx) (ps
     (h : revokeSentinel P s c = some (s', ps)) :
     ∃ e, lookup c.sender s.entries = some e ∧ c.amount = 0 ∧ e.revokeTime = 0 ∧
       revocable P.sentinelLock P.sentinelRevoke e.regTime c.now = true ∧
-      ps = [⟨c.sender, znnTok, e.znn, false⟩, ⟨c.sender, qsrTok, e.qsr, false⟩] ∧
+      ps = [⟨c.sender, znnTok, e.znn, .none⟩, ⟨c.sender, qsrTok, e.qsr, .none⟩] ∧
       lookup c.sender s'.entries = some { e with revokeTime := c.now, znn := 0, qsr := 0 } := by
   obtain ⟨ha, e, he, hr, hw, hs, hps⟩ := revokeSentinel_spec h
   refine ⟨e, he, ha, hr, hw, hps, ?_⟩
@@ -486,7 +486,7 @@ theorem revokeSentinel_release_rule (P : Params) (s s' : Sentinel) (c : Ctx) (ps
 theorem revokeSentinel_never_twice (P : Params) (s s' s'' : Sentinel) (c c2 : Ctx) (ps ps2 : List Payout)
     (h : revokeSentinel P s c = some (s', ps)) (hsame : c2.sender = c.sender)
     (h2 : revokeSentinel P s' c2 = some (s'', ps2)) :
-    c.now = 0 ∧ ps2 = [⟨c.sender, znnTok, 0, false⟩, ⟨c.sender, qsrTok, 0, false⟩] := by
+    c.now = 0 ∧ ps2 = [⟨c.sender, znnTok, 0, .none⟩, ⟨c.sender, qsrTok, 0, .none⟩] := by
   obtain ⟨e, _, _, _, _, _, hrec⟩ := revokeSentinel_release_rule P s s' c ps h
   obtain ⟨e2, he2, _, hr2, _, hp2, _⟩ := revokeSentinel_release_rule P s' s'' c2 ps2 h2
   rw [hsame, hrec] at he2
@@ -526,7 +526,7 @@ theorem liquidity_burn_breaks_backing :
 theorem cancelLiquidityStake_release_rule (id : Hash) (s s' : Liquidity) (c : Ctx) (ps : List Payout)
     (h : cancelLiquidityStake id s c = some (s', ps)) :
     ∃ e, lookup (c.sender, id) s.entries = some e ∧ c.amount = 0 ∧ e.expiration ≤ c.now ∧
-      ps = [⟨c.sender, e.tok, e.amount, false⟩] ∧
+      ps = [⟨c.sender, e.tok, e.amount, .none⟩] ∧
       lookup (c.sender, id) s'.entries = some { e with revoke := c.now, amount := 0 } := by
   unfold cancelLiquidityStake at h
   split at h
@@ -548,12 +548,148 @@ theorem cancelLiquidityStake_release_rule (id : Hash) (s s' : Liquidity) (c : Ct
 theorem cancelLiquidityStake_never_twice (id : Hash) (s s' s'' : Liquidity) (c c2 : Ctx) (ps ps2 : List Payout)
     (h : cancelLiquidityStake id s c = some (s', ps)) (hsame : c2.sender = c.sender)
     (h2 : cancelLiquidityStake id s' c2 = some (s'', ps2)) :
-    ∃ tok, ps2 = [⟨c.sender, tok, 0, false⟩] := by
+    ∃ tok, ps2 = [⟨c.sender, tok, 0, .none⟩] := by
   obtain ⟨e, _, _, _, _, hrec⟩ := cancelLiquidityStake_release_rule id s s' c ps h
   obtain ⟨e2, he2, _, _, hp2, _⟩ := cancelLiquidityStake_release_rule id s' s'' c2 ps2 h2
   rw [hsame, hrec] at he2
   cases he2
   exact ⟨e.tok, by rw [hp2, hsame]⟩
+
+/-! ## bridge: unwrap requests (T5) — configuration reads and the TSS signature check are oracle inputs -/
+
+/-- an unwrap request is registered only if the bridge may act, no request exists yet for (transaction hash, log index),
+    a redeemable token pair is configured for the token address and the TSS signature over the request verifies; the
+    recorded request carries the recipient and amount named in the signed call, the frontier height, and is neither
+    redeemed nor revoked; nothing is paid. -/
+theorem unwrapToken_records_request (canAct sigOk : Bool) (pair : Option PairInfo) (tx : Hash) (log : Nat) (to : Addr)
+    (ta amount : Nat) (s s' : Bridge) (c : Ctx) (ps : List Payout)
+    (h : unwrapToken canAct sigOk pair tx log to ta amount s c = some (s', ps)) :
+    canAct = true ∧ sigOk = true ∧ 0 < amount ∧ c.amount = 0 ∧ lookup (tx, log) s.requests = none ∧
+      ∃ p, pair = some p ∧ p.redeemable = true ∧
+        lookup (tx, log) s'.requests = some ⟨c.height, to, ta, p.tok, amount, 0, 0⟩ ∧ ps = [] := by
+  unfold unwrapToken at h
+  split at h
+  · cases h
+  · rename_i h1
+    split at h
+    · cases h
+    · rename_i h2
+      split at h
+      · cases h
+      · rename_i h3
+        split at h
+        · cases h
+        · rename_i h4
+          split at h
+          · cases h
+          · rename_i p
+            split at h
+            · cases h
+            · rename_i h5
+              split at h
+              · cases h
+              · rename_i h6
+                simp only [Option.some.injEq, Prod.mk.injEq] at h
+                obtain ⟨hs, hp⟩ := h
+                subst hs
+                refine ⟨by simpa using h3, by simpa using h6, by omega, by omega, ?_, p, rfl, by simpa using h5,
+                  lookup_put_self _ _ _, hp.symm⟩
+                cases hl : lookup (tx, log) s.requests with
+                | none => rfl
+                | some v => simp [hl] at h4
+
+/-- a registered request — open, redeemed or revoked — can never be registered again (so its flags are never reset) -/
+theorem unwrapToken_keeps_existing (canAct sigOk : Bool) (pair : Option PairInfo) (tx : Hash) (log : Nat) (to : Addr)
+    (ta amount : Nat) (s : Bridge) (c : Ctx) (r : UnwrapReq) (hr : lookup (tx, log) s.requests = some r) :
+    unwrapToken canAct sigOk pair tx log to ta amount s c = none := by
+  unfold unwrapToken
+  split
+  · rfl
+  · split
+    · rfl
+    · split
+      · rfl
+      · simp [hr]
+
+/-- T5 (bridge redeem rule): Redeem pays out only if the caller sent no amount, the bridge may act, the request exists
+    and is neither redeemed nor revoked, a token pair is still configured for it and at least `redeemDelay` momentums
+    have passed since its registration; it pays — or, for a token owned by the bridge, has the token contract mint —
+    exactly the request's amount of the pair's token to the recipient named in the signed request, whoever the caller
+    is, and flags the request as redeemed in the same step. -/
+theorem redeem_release_rule (canAct : Bool) (pair : Option PairInfo) (tx : Hash) (log : Nat) (s s' : Bridge) (c : Ctx)
+    (ps : List Payout) (h : redeemUnwrap canAct pair tx log s c = some (s', ps)) :
+    ∃ r p, lookup (tx, log) s.requests = some r ∧ pair = some p ∧ canAct = true ∧ c.amount = 0 ∧
+      r.redeemed = 0 ∧ r.revoked = 0 ∧ p.redeemDelay ≤ c.height - r.regHeight ∧
+      ps = [if p.owned then ⟨tokenContract, p.tok, 0, .mint p.tok r.amount r.toAddr⟩ else ⟨r.toAddr, p.tok, r.amount, .none⟩] ∧
+      lookup (tx, log) s'.requests = some { r with redeemed := 1 } := by
+  unfold redeemUnwrap at h
+  split at h
+  · cases h
+  · rename_i h1
+    split at h
+    · cases h
+    · rename_i h2
+      split at h
+      · cases h
+      · rename_i r hr
+        split at h
+        · cases h
+        · rename_i h3
+          split at h
+          · cases h
+          · rename_i p
+            split at h
+            · cases h
+            · rename_i h4
+              simp only at h
+              refine ⟨r, p, hr, rfl, by simpa using h2, by omega, by omega, by omega, by omega, ?_, ?_⟩
+              · split at h
+                · rename_i ho
+                  simp only [Option.some.injEq, Prod.mk.injEq] at h
+                  simp [ho, h.2.symm]
+                · rename_i ho
+                  simp only [Option.some.injEq, Prod.mk.injEq] at h
+                  simp [ho, h.2.symm]
+              · split at h <;>
+                · simp only [Option.some.injEq, Prod.mk.injEq] at h
+                  rw [← h.1]
+                  exact lookup_put_self _ _ _
+
+/-- T5 (never twice): once redeemed, no later Redeem of that request — by anybody, under any configuration — pays. -/
+theorem redeem_never_twice (canAct canAct2 : Bool) (pair pair2 : Option PairInfo) (tx : Hash) (log : Nat)
+    (s s' : Bridge) (c c2 : Ctx) (ps : List Payout) (h : redeemUnwrap canAct pair tx log s c = some (s', ps)) :
+    redeemUnwrap canAct2 pair2 tx log s' c2 = none := by
+  obtain ⟨r, p, _, _, _, _, _, _, _, _, hrec⟩ := redeem_release_rule canAct pair tx log s s' c ps h
+  unfold redeemUnwrap
+  split
+  · rfl
+  · split
+    · rfl
+    · rw [hrec]; simp
+
+/-- a request revoked by the administrator is never redeemed -/
+theorem revoked_never_redeemed (isAdmin canAct2 : Bool) (pair2 : Option PairInfo) (tx : Hash) (log : Nat)
+    (s s' : Bridge) (c c2 : Ctx) (ps : List Payout) (h : revokeUnwrap isAdmin tx log s c = some (s', ps)) :
+    isAdmin = true ∧ ps = [] ∧ redeemUnwrap canAct2 pair2 tx log s' c2 = none := by
+  unfold revokeUnwrap at h
+  split at h
+  · cases h
+  · split at h
+    · cases h
+    · rename_i r hr
+      split at h
+      · cases h
+      · rename_i ha
+        simp only [Option.some.injEq, Prod.mk.injEq] at h
+        obtain ⟨hs, hp⟩ := h
+        subst hs
+        refine ⟨by simpa using ha, hp.symm, ?_⟩
+        unfold redeemUnwrap
+        split
+        · rfl
+        · split
+          · rfl
+          · simp [lookup_put_self]
 
 /-! ## the hypotheses are satisfiable -/
 
@@ -562,7 +698,7 @@ example :
     let s : Plasma := { fusions := [((16, 7), ⟨50, 10, 17⟩)], fused := [(17, 50)] }
     let c : Ctx := ⟨1000, 10, 16, 0, zeroTok, 99⟩
     Backed plasmaOwed s [(qsrTok, 50)] ∧ PlasmaConsistent s ∧
-    (cancelFuse 7 s c).map (·.2) = some [⟨16, qsrTok, 50, false⟩] ∧
+    (cancelFuse 7 s c).map (·.2) = some [⟨16, qsrTok, 50, .none⟩] ∧
     (vmStep (cancelFuse 7) s [(qsrTok, 50)] c).status = 1 ∧
     (vmStep (cancelFuse 7) s [(qsrTok, 50)] { c with height := 9 }).status = 2 := by
   refine ⟨?_, ⟨by simp [NodupKeys], ?_⟩, by decide, by decide, by decide⟩
@@ -580,11 +716,11 @@ example :
 example :
     let H : HashFn := fun _ p => p ++ [0]
     let s : Htlc := { entries := [(5, ⟨16, 17, znnTok, 5, 1000, 0, 32, [1, 2, 0]⟩)] }
-    (unlockHtlc H 5 [1, 2] s ⟨990, 9, 18, 0, zeroTok, 77⟩).map (·.2) = some [⟨17, znnTok, 5, false⟩] ∧
+    (unlockHtlc H 5 [1, 2] s ⟨990, 9, 18, 0, zeroTok, 77⟩).map (·.2) = some [⟨17, znnTok, 5, .none⟩] ∧
     unlockHtlc H 5 [1, 2] s ⟨1000, 9, 17, 0, zeroTok, 77⟩ = none ∧
     unlockHtlc H 5 [1, 3] s ⟨990, 9, 17, 0, zeroTok, 77⟩ = none ∧
     reclaimHtlc 5 s ⟨990, 9, 16, 0, zeroTok, 77⟩ = none ∧
-    (reclaimHtlc 5 s ⟨1000, 9, 16, 0, zeroTok, 77⟩).map (·.2) = some [⟨16, znnTok, 5, false⟩] ∧
+    (reclaimHtlc 5 s ⟨1000, 9, 16, 0, zeroTok, 77⟩).map (·.2) = some [⟨16, znnTok, 5, .none⟩] ∧
     reclaimHtlc 5 s ⟨1000, 9, 17, 0, zeroTok, 77⟩ = none := by
   decide
 
@@ -599,8 +735,8 @@ example :
     let r3 := vmStep (revokePillar P 7 true) r2.st r2.bal ⟨1110, 4, 16, 0, zeroTok, 4⟩
     let again := vmStep (revokePillar P 7 true) r3.st r3.bal ⟨1120, 5, 16, 0, zeroTok, 5⟩
     PillarInv P s0 ∧ Backed pillarOwed s0 [] ∧
-    r1.status = 1 ∧ r2.status = 1 ∧ r2.descs = [⟨tokenContract, qsrTok, 150, true⟩] ∧
-    early.status = 2 ∧ r3.status = 1 ∧ r3.descs = [⟨16, znnTok, 15, false⟩] ∧ again.status = 2 := by
+    r1.status = 1 ∧ r2.status = 1 ∧ r2.descs = [⟨tokenContract, qsrTok, 150, .burn⟩] ∧
+    early.status = 2 ∧ r3.status = 1 ∧ r3.descs = [⟨16, znnTok, 15, .none⟩] ∧ again.status = 2 := by
   refine ⟨?_, ?_, by decide, by decide, by decide, by decide, by decide, by decide, by decide⟩
   · intro x hx; simp at hx
   · intro tok _; simp [pillarOwed, total, depositsTotal]
@@ -612,8 +748,22 @@ example :
     let r2 := vmStep (registerSentinel P) r1.st r1.bal ⟨1010, 2, 16, 5, znnTok, 2⟩
     let r3 := vmStep (revokeSentinel P) r2.st r2.bal ⟨1110, 3, 16, 0, zeroTok, 3⟩
     let r4 := vmStep sentinelWithdraw r3.st r3.bal ⟨1120, 4, 16, 0, zeroTok, 4⟩
-    r2.status = 1 ∧ r3.descs = [⟨16, znnTok, 5, false⟩, ⟨16, qsrTok, 50, false⟩] ∧
-    r4.descs = [⟨16, qsrTok, 10, false⟩] ∧ r4.bal.get qsrTok = 0 ∧ r4.bal.get znnTok = 0 := by
+    r2.status = 1 ∧ r3.descs = [⟨16, znnTok, 5, .none⟩, ⟨16, qsrTok, 50, .none⟩] ∧
+    r4.descs = [⟨16, qsrTok, 10, .none⟩] ∧ r4.bal.get qsrTok = 0 ∧ r4.bal.get znnTok = 0 := by
+  decide
+
+/-- bridge: a signed unwrap of 7 ZNN for 17, redeem delay 3: too early at +2, paid to 17 at +3 when 18 calls, refused afterwards;
+    for a bridge-owned token the token contract is asked to mint instead -/
+example :
+    let pair : PairInfo := ⟨znnTok, true, false, 3⟩
+    let r1 := vmStep (unwrapToken true true (some pair) 5 0 17 99 7) ({} : Bridge) [(znnTok, 10)] ⟨1000, 10, 16, 0, zeroTok, 1⟩
+    let early := vmStep (redeemUnwrap true (some pair) 5 0) r1.st r1.bal ⟨1020, 12, 18, 0, zeroTok, 2⟩
+    let r2 := vmStep (redeemUnwrap true (some pair) 5 0) r1.st r1.bal ⟨1030, 13, 18, 0, zeroTok, 3⟩
+    let again := vmStep (redeemUnwrap true (some pair) 5 0) r2.st r2.bal ⟨1040, 14, 17, 0, zeroTok, 4⟩
+    let owned := vmStep (redeemUnwrap true (some ⟨9, true, true, 3⟩) 5 0) r1.st r1.bal ⟨1030, 13, 18, 0, zeroTok, 3⟩
+    r1.status = 1 ∧ early.status = 2 ∧ r2.status = 1 ∧ r2.descs = [⟨17, znnTok, 7, .none⟩] ∧ r2.bal.get znnTok = 3 ∧
+    again.status = 2 ∧ owned.descs = [⟨tokenContract, 9, 0, .mint 9 7 17⟩] ∧
+    (vmStep (unwrapToken true false (some pair) 6 0 17 99 7) ({} : Bridge) [] ⟨1000, 10, 16, 0, zeroTok, 1⟩).status = 2 := by
   decide
 
 end ZV.C10
